@@ -1538,7 +1538,13 @@ def fault_case(case):
         total = len(export(repo))
         mode = ['cutimport', 'poisonimport', 'cutexport'][k % 3]
         cut = rnd.choice([0, 1, 13, 65536, 65537, total - 6, total // 2]) if rnd.random() < 0.3 else rnd.randrange(0, max(1, total - 5))
+        if k % 20 in (0, 1, 2):
+            cut = 0            # nothing at all reaches the child (every mode gets this boundary in every tier)
         cut = max(0, min(cut, total - 6))
+        if mode == 'cutimport' and cut == 0 and total < 200000:
+            # an importer that is fed nothing exits 0 (the empty stream is valid): the tool can only notice through the
+            # broken pipe, which it is sure to hit only when the stream exceeds the pipe buffer
+            cut = 1
         opts = [[], ['--path-rename', 'd2/:moved/'], ['--branch-rename', 'b:br-'], ['--tag-rename', 'v:rel-'], ['--path', 'd3/', '--invert-paths'],
                 ['--branch-rename', 'rel:REL', '--path-rename', 'd1/:x/']][rnd.randrange(6)]
         env = perturbed_env(root, k, mode)
@@ -1686,6 +1692,130 @@ def head_case(case):
     except Exception as e:
         import traceback
         res['error'] = f'{type(e).__name__}: {e} {traceback.format_exc()[-300:]}'
+        return res
+    finally:
+        shutil.rmtree(root, ignore_errors=True)
+
+
+# ------------------------------------------------------------------------------------------------
+# the importer contract (Frrs/Import.lean) against real git fast-import
+
+def _blob_sha(content):
+    import hashlib
+    return hashlib.sha1(b'blob %d\0' % len(content) + content).hexdigest()
+
+
+def _contract_compare(stream, root, tag, res, count, fail):
+    """import `stream` into a fresh repository with real git and compare commit by commit with Import.importBytes"""
+    repo = os.path.join(root, 'contract-' + tag)
+    subprocess.run(['git', 'init', '-q', repo], check=True, env=GIT_ENV, stdout=subprocess.DEVNULL)
+    marks_path = os.path.join(root, 'marks-' + tag)
+    p = subprocess.run(['git', '-C', repo, '-c', 'core.ignorecase=false', 'fast-import', '--quiet', '--force', '--date-format=raw-permissive', f'--export-marks={marks_path}'],
+                       input=stream, stdout=subprocess.PIPE, stderr=subprocess.PIPE, env=GIT_ENV)
+    dump = model().ask('import-dump ' + enhex(stream))
+    if p.returncode != 0:
+        if not dump.startswith('failed'):
+            fail(f'[{tag}] git fast-import rejects the stream ({p.stderr.decode("utf-8", "replace").strip()[:120]}) but the contract model accepts it')
+        count('rejected-by-both')
+        return
+    if dump.startswith('failed'):
+        fail(f'[{tag}] git fast-import accepts the stream but the contract model rejects it: {dump}')
+        return
+    marks = {}
+    if os.path.exists(marks_path):
+        for l in open(marks_path):
+            m, sha = l.split()
+            marks[int(m[1:])] = sha
+    parts = dump.split('|')[1:]
+    commits = [x for x in parts if x.startswith('C:')]
+    rlines = [x for x in parts if x.startswith('R:')]
+    sha_of = {}
+    real_refs = refs(repo)
+    for i, c in enumerate(commits):
+        _, mark, parents, msg, tree = c.split(':')
+        if mark == '-':
+            count('commit-without-mark-skipped')
+            continue
+        sha = marks.get(int(mark))
+        if sha is None:
+            fail(f'[{tag}] commit #{i} (mark {mark}) of the model has no entry in the real marks file')
+            return
+        sha_of[i] = sha
+        raw = git(repo, 'cat-file', 'commit', sha)
+        head, _, body = raw.partition(b'\n\n')
+        real_parents = [l.split(b' ')[1].decode() for l in head.split(b'\n') if l.startswith(b'parent ')]
+        want_parents = []
+        for pr in ([] if parents == '-' else parents.split('+')):
+            if pr.startswith('i'):
+                want_parents.append(sha_of.get(int(pr[1:]), '?'))
+            else:
+                want_parents.append(unhex(pr[1:]).decode('latin1'))
+        if real_parents != want_parents:
+            fail(f'[{tag}] commit #{i}: parents in git {real_parents}, in the contract model {want_parents}')
+        if body != unhex(msg):
+            fail(f'[{tag}] commit #{i}: message differs')
+        real_tree = set()
+        for ent in git(repo, 'ls-tree', '-r', '-z', sha).split(b'\0'):
+            if ent:
+                meta, path = ent.split(b'\t', 1)
+                mode, typ, oid = meta.decode().split()
+                real_tree.add((path, mode, oid))
+        want_tree = set()
+        for e in ([] if tree == '-' else tree.split(',')):
+            ph, mh, bl = e.split('=')
+            mode = unhex(mh).decode()
+            mode = {'644': '100644', '755': '100755'}.get(mode, mode)
+            oid = _blob_sha(unhex(bl[1:])) if bl[0] == 'c' else unhex(bl[1:]).decode()
+            want_tree.add((unhex(ph), mode, oid))
+        if real_tree != want_tree:
+            d = sorted(real_tree ^ want_tree)[:3]
+            fail(f'[{tag}] commit #{i}: tree differs between git and the contract model, e.g. {d}')
+        count('commits-compared')
+    want_refs = {}
+    for r in rlines:
+        body = r[2:]
+        name_h, rest = body.split('=', 1)
+        name = unhex(name_h).decode('utf-8', 'replace')
+        if rest.startswith('c'):
+            pr = rest[1:]
+            want_refs[name] = ('commit', sha_of.get(int(pr[1:]), '?') if pr.startswith('i') else unhex(pr[1:]).decode('latin1'))
+        elif rest.startswith('t'):
+            pr = rest[1:].split('=')[0]
+            want_refs[name] = ('tag', sha_of.get(int(pr[1:]), '?') if pr.startswith('i') else '?')
+    got_refs = {}
+    for name, val in real_refs.items():
+        got_refs[name] = ('tag', val[2]) if val[1] == 'tag' else ('commit', val[0])
+    if got_refs != want_refs:
+        d = [(n, got_refs.get(n), want_refs.get(n)) for n in sorted(set(got_refs) | set(want_refs)) if got_refs.get(n) != want_refs.get(n)][:3]
+        fail(f'[{tag}] refs differ between git and the contract model (name, git, model): {d}')
+    count('streams-compared-' + tag)
+
+
+def contract_case(case):
+    root = tempfile.mkdtemp(prefix='frrs-con-')
+    res = dict(id=case['id'], failures=[], dist={})
+    def count(k): res['dist'][k] = res['dist'].get(k, 0) + 1
+    def fail(msg): res['failures'].append(('CONTRACT', msg))
+    try:
+        stream = unhex(case['stream_hex'])
+        _contract_compare(stream, root, 'source', res, count, fail)
+        # the stream the tool writes for this case (dry run), imported from scratch by git and by the model
+        repo, marks = build_repo(case, root)
+        aux = write_aux(case, root, marks)
+        cli = [a.replace('@AUX@', aux) for a in case['cli']]
+        rc, _, _, _ = run_tool(repo, ['--dry-run', '--force'] + cli)
+        f = os.path.join(repo, '.git', 'filter-repo', 'fast-export.filtered')
+        if rc == 0 and os.path.exists(f):
+            filtered = open(f, 'rb').read()
+            import re as _re
+            if b'\nfrom ' not in filtered.replace(b'\nfrom :', b'') and b'\nmerge ' not in filtered.replace(b'\nmerge :', b'') and not _re.search(rb'M \d{6} [0-9a-f]{40} ', filtered):
+                _contract_compare(filtered, root, 'filtered', res, count, fail)
+            else:
+                count('filtered-stream-refers-to-existing-objects-skipped')
+        return res
+    except Exception as e:
+        import traceback
+        res['error'] = f'{type(e).__name__}: {e} {traceback.format_exc()[-400:]}'
         return res
     finally:
         shutil.rmtree(root, ignore_errors=True)
